@@ -191,7 +191,14 @@ func matchKnown(known []KnownFinding, prop string, v *Violation) *KnownFinding {
 
 // ---- worker management -----------------------------------------------------------------------------------------------------
 
+type crashRec struct {
+	idx     int
+	log     string
+	stalled bool
+}
+
 type workerOut struct {
+	crashes  []crashRec
 	recs     []RunRecord
 	crashed  bool
 	crashIdx int
@@ -312,7 +319,7 @@ func tierOf(tier string) tierParams {
 	if tier == "thorough" {
 		return tierParams{budget: 12 * time.Minute, maxRuns: 1 << 30, stall: 180 * time.Second}
 	}
-	return tierParams{budget: 50 * time.Second, maxRuns: 1 << 30, stall: 90 * time.Second}
+	return tierParams{budget: 50 * time.Second, maxRuns: 1 << 30, stall: 45 * time.Second}
 }
 
 var crashProps = map[string]bool{"C04": true, "C05": true, "C13": true, "C20": true}
@@ -363,7 +370,34 @@ func cmdCheck(args []string) int {
 		wg.Add(1)
 		go func(w int) {
 			defer wg.Done()
-			outs[w] = runWorker(bin, prop, *tier, seed, w, *workers, perWorker, tp.budget, filepath.Join(workDir, fmt.Sprintf("w%d.jsonl", w)), tp.stall)
+			// a worker that dies (lal panicked) is restarted after the fatal run index until the budget is used up
+			started := time.Now()
+			from := w
+			done := 0
+			var all workerOut
+			for part := 0; part < 200; part++ {
+				remaining := tp.budget - time.Since(started)
+				if tp.budget > 0 && remaining <= time.Second {
+					break
+				}
+				if perWorker-done <= 0 {
+					break
+				}
+				o := runWorker(bin, prop, *tier, seed, from, *workers, perWorker-done, remaining, filepath.Join(workDir, fmt.Sprintf("w%d.%d.jsonl", w, part)), tp.stall)
+				all.recs = append(all.recs, o.recs...)
+				if o.crashed {
+					all.crashes = append(all.crashes, crashRec{o.crashIdx, o.crashLog, o.stalled})
+					done += (o.crashIdx-from) / *workers + 1
+					from = o.crashIdx + *workers
+					continue
+				}
+				if o.stalled {
+					all.stalled = true
+				}
+				all.exitErr = o.exitErr
+				break
+			}
+			outs[w] = all
 		}(w)
 	}
 	wg.Wait()
@@ -377,16 +411,19 @@ func cmdCheck(args []string) int {
 	var crashes []crash
 	for w, o := range outs {
 		recs = append(recs, o.recs...)
-		if o.stalled {
-			harnessTrouble = append(harnessTrouble, fmt.Sprintf("worker %d stalled (no progress for %v) at idx %d", w, tp.stall, o.crashIdx))
-			if crashProps[prop] && o.crashed {
-				crashes = append(crashes, crash{o.crashIdx, "STALL: a step did not reach quiescence within the wall-clock budget\n" + o.crashLog})
+		for _, c := range o.crashes {
+			if c.stalled {
+				harnessTrouble = append(harnessTrouble, fmt.Sprintf("worker %d stalled (no progress for %v) at idx %d", w, tp.stall, c.idx))
+				if crashProps[prop] {
+					crashes = append(crashes, crash{c.idx, "STALL: a step did not reach quiescence within the wall-clock budget\n" + c.log})
+				}
+				continue
 			}
-			continue
+			crashes = append(crashes, crash{c.idx, c.log})
 		}
-		if o.crashed {
-			crashes = append(crashes, crash{o.crashIdx, o.crashLog})
-		} else if o.exitErr != nil {
+		if o.stalled {
+			harnessTrouble = append(harnessTrouble, fmt.Sprintf("worker %d stalled (no progress for %v)", w, tp.stall))
+		} else if o.exitErr != nil && len(o.crashes) == 0 {
 			harnessTrouble = append(harnessTrouble, fmt.Sprintf("worker %d: %v", w, o.exitErr))
 		}
 	}
